@@ -40,7 +40,7 @@ def equivalent_x0(rng, sps, x0):
                     c0 = rng.choice([1.0, 0.37, 12.5, 1e-8, 1e7])
                     return [v * c0 for v in y], "molecule redistributed to its atoms, then scaled"
     # any positive constant: also extreme ones (x0 in other units, unnormalised feeds)
-    c0 = rng.choice([0.01, 0.5, 3.0, 250.0, 1e-9, 1e-7, 1e-5, 1e6, 1e9])
+    c0 = rng.choice([0.01, 0.5, 3.0, 250.0, 1e-9, 1e-7, 1e-5, 1e6, 1e9, 1e-12, 1e-14, 1e-16, 1e12])
     return [v * c0 for v in x0], f"scaled by {c0}"
 
 
@@ -76,6 +76,9 @@ def check(run):
         xp = [0.0] * len(names)
         xp[names.index("CO")], xp[names.index("SiO")] = f, 1 - f
         pinned.append(([gen.shipped(nm) for nm in names], xp, rng.uniform(1500.0, 4000.0), 10 ** rng.uniform(4, 6), "pinned", rng.choice([1e-7, 1e-8, 1e-9, 1e8])))
+    # x0 in units in which it is tiny (the solver's particle numbers scale with x0, the plasma does not): every property, shipped oxygen
+    for Tx, cx in ((5000.0, 1e-12), (10000.0, 1e-16), (15000.0, 1e-14), (8000.0, 1e12)) if thorough else ((5000.0, 1e-12), (10000.0, 1e-16)):
+        pinned.append(([gen.shipped(nm) for nm in gen.OXY], [1, 0, 0, 0, 0, 0], Tx, 101325.0, "extreme", cx))
     for case in pinned + [c + (None,) for c in sc.cases(rng, n, Trange=(1000.0, 25000.0), Prange=(1e4, 1e6), kinds=kinds)]:
         sps, x0, T, P, kind, cpin = case
         if kind == "oxy":            # documented order converges reliably
@@ -85,7 +88,7 @@ def check(run):
         y0, how = equivalent_x0(rng, sps, list(x0))
         if cpin is not None:
             y0, how = [v * cpin for v in x0], f"scaled by {cpin}"
-        scal = ["calculate_density", "calculate_enthalpy", "calculate_electrical_conductivity"] if kind == "pinned" else equiv.SCALARS if kind in ("oxy", "sico") else ["calculate_density", "calculate_enthalpy", "calculate_heat_capacity", "calculate_total_emission_coefficient"]
+        scal = ["calculate_density", "calculate_enthalpy", "calculate_electrical_conductivity"] if kind == "pinned" else equiv.SCALARS if kind in ("oxy", "sico", "extreme") else ["calculate_density", "calculate_enthalpy", "calculate_heat_capacity", "calculate_total_emission_coefficient"]
         try:
             a = equiv.evaluate(sps, list(x0), T, P, scalars=scal)
             b = equiv.evaluate(sps, y0, T, P, scalars=scal)
